@@ -37,7 +37,7 @@ ASSUMPTIONS = [
     "float32 storage of the note array is the precision of the rebuild comparison",
 ]
 COMPONENTS = {"real": ["partitura.performance (PerformedPart, PerformedNote, adjust_offsets_w_sustain, Performance)", "partitura.io.importmidi.load_performance_midi", "utils.music.seconds_to_midi_ticks", "mido"], "stub": ["SimFS", "independent SMF writer (model/ref_smf.py)"]}
-PROBES = ("pedal_extended_note", "restrike_clipped", "illegal_edit_rejected", "threshold_127", "no_pedal_events", "pedal_event_at_release", "overlapping_equal_pitch", "threshold_raised", "performance_wrap", "rebuild")
+PROBES = ("reclocked", "pedal_extended_note", "restrike_clipped", "illegal_edit_rejected", "threshold_127", "no_pedal_events", "pedal_event_at_release", "overlapping_equal_pitch", "threshold_raised", "performance_wrap", "rebuild")
 
 
 # ----------------------------------------------------------------------------
@@ -84,9 +84,11 @@ def generate(seed, tier, cfg):
             ops.append({"k": "add_control", "time": o.randrange(0, 64) / 8.0 + 0.0625, "value": o.choice((0, 127, 64, 90, 30)), "number": o.choice((64, 64, 67))})
         elif x < 0.78:
             ops.append({"k": "rm_control", "i": o.randrange(0, 10)})
-        elif x < 0.88:
+        elif x < 0.82:
+            ops.append({"k": "reclock", "ppq": o.choice((480, 960, 96, 1000)), "mpq": o.choice((500000, 600000, 250000, 454545))})
+        elif x < 0.90:
             ops.append({"k": "note_array"})
-        elif x < 0.94:
+        elif x < 0.95:
             ops.append({"k": "rebuild"})
         else:
             ops.append({"k": "wrap", "extra_tracks": o.choice(((0,), (0, 1), (1, 3)))})
@@ -268,6 +270,8 @@ def execute(case, keep_log=False):
             nontrivial = True
         prev = (thr, [n["sound_off"] for n in plain_notes(pp)])
         edited_since = False
+        # notes built from seconds carry no tick fields: their ticks always follow from seconds, ppq and mpq
+        had_ticks = any("note_on_tick" in n for n in plain_notes(pp))
         for op in case["ops"]:
             if res.violations:
                 break
@@ -364,8 +368,10 @@ def execute(case, keep_log=False):
                     notes = plain_notes(pp)
                     if len(na) != len(notes):
                         res.violation("P5-note-array", "note_array", "note array has %d rows for %d notes" % (len(na), len(notes)), site="rows")
+                    if not had_ticks and any("note_on_tick" in n or "note_off_tick" in n for n in notes):
+                        res.violation("P5-note-array", "note_array", "taking the note array stored tick fields in the notes of a part that was built from seconds", site="mutated-notes")
                     for row, n in zip(na, notes):
-                        want_tick = n.get("note_on_tick")
+                        want_tick = n.get("note_on_tick") if had_ticks else None
                         if want_tick is None:
                             want_tick = int(round(1e6 * pp.ppq * n["note_on"] / pp.mpq))
                         if int(row["onset_tick"]) != int(want_tick) and abs(1e6 * pp.ppq * n["note_on"] / pp.mpq % 1 - 0.5) > 1e-6:
@@ -386,6 +392,11 @@ def execute(case, keep_log=False):
                                 res.violation("P5-note-array", "note_array", "note %s duration_tick %s, expected %s" % (n["id"], row["duration_tick"], dt), site="duration_tick")
                                 break
                     outcome = len(na)
+                elif k == "reclock":
+                    if not had_ticks:
+                        pp.ppq, pp.mpq = op["ppq"], op["mpq"]
+                        res.probe("reclocked")
+                    outcome = [pp.ppq, pp.mpq]
                 elif k == "rebuild":
                     res.probe("rebuild")
                     na = pp.note_array()
